@@ -19,7 +19,10 @@ REQUIRED_THEOREMS = [
     'C18_param_map_once', 'C18_param_map_distinct', 'C18_param_map_exchange_counterexample',
     'C18_table_id_scalar', 'C18_table_id_per_parameter', 'C18_table_id_order_counterexample',
     'C18_table_outcomes_pairs', 'C18_table_hoisted_counterexample', 'C18_shared_predictive_model',
-    'C18_shared_predictive_model_alias_counterexample']
+    'C18_shared_predictive_model_alias_counterexample', 'C18_pointwise_keeps_coordinates',
+    'C18_pointwise_derived_entry', 'C18_derived_labels_within', 'C18_predictive_rows_derived',
+    'C18_pointwise_shifted_entry', 'C18_axis_sublist_find', 'C18_axis_fromLabel_find', 'C18_axis_selLabels_find',
+    'C18_axis_shift_find', 'C18_pointwise_relabel_partial', 'C18_pointwise_relabel_counterexample']
 RULE = ('random posteriors: individual (LogPosterior), hierarchical (1-3 population sub-models out of '
         'Gaussian / log-normal centred and non-centred, truncated Gaussian, pooled, heterogeneous, covariate-'
         'wrapped Gaussian and pooled, reduced), 1-4 individuals, 1-2 dims per sub-model, and population-filter '
@@ -28,7 +31,10 @@ RULE = ('random posteriors: individual (LogPosterior), hierarchical (1-3 populat
         'Optimisation tables: 1-4 runs of labelled / unlabelled individual and hierarchical posteriors with a '
         'recording optimiser (set_optimiser) of which any subset of the runs breaks down after 0-3 iterations; '
         'read-back: one PredictiveModel / log-likelihood object serving several consumers with different '
-        'parameter maps before and between the observed calls. '
+        'parameter maps before and between the observed calls; datasets derived from the formatted / returned one '
+        '(warm-up removed with .sel(draw=slice(k, None)), thinned, a subset of chains, renumbered draws / chains, '
+        '1-3 such steps in any order) fed to compute_pointwise_loglikelihood (DataArray and InferenceData form, '
+        'observed with .sel(chain=c, draw=d) for every label pair) and to PosteriorPredictiveModel. '
         'non-trivial = a special (pooled / heterogeneous) dimension next to a hierarchical one, or >= 2 '
         'individuals with >= 2 bottom names; distinct = distinct (posterior kind, composition, n_ids)')
 ASSUMPTIONS = ['the mechanistic model is the closed-form toy model of harness/toy.py (the ODE solver is absent)',
@@ -37,7 +43,10 @@ ASSUMPTIONS = ['the mechanistic model is the closed-form toy model of harness/to
                'xarray / pandas container semantics (dict of DataArrays, coordinate selection) are modelled as '
                'gathers of chain positions; column assignment to a frame (a scalar is broadcast over the rows '
                'present, a list gives a frame without rows its rows) as LabelFrame.setId / setParam',
-               'a run of the optimisation breaks down = the optimiser handed to set_optimiser raises from ask()']
+               'a run of the optimisation breaks down = the optimiser handed to set_optimiser raises from ask()',
+               'xarray selection on the chain / draw dimension (.sel with a label list or slice(k, None), .isel with a '
+               'stepped slice, assign_coords) is modelled as DOp.apply on a list of (label, raw position); the model is '
+               'compared with xarray itself on every derived dataset (C18.derived_dataset/xarray_selection)']
 
 KINDS = ['G', 'Gnc', 'LN', 'LNnc', 'TG', 'P', 'H', 'CovG', 'CovP']
 
@@ -531,6 +540,188 @@ def readback_case(ctx, chi, c, fmt, lls, inp, rng):
                  not isinstance(gotp, str) and gotp.shape == wantp.shape
                  and core.close(gotp, wantp, 1e-12), inp if earlier is None else dict(inp, earlier_param_map=earlier),
                  {'individual': individual, 'chi': gotp if isinstance(gotp, str) else 'array', 'columns': cols})
+    # --- the same dataset with the warm-up removed / thinned / fewer chains / renumbered
+    cols = columns(pmap, uniq[r_first])
+    if cols is not None:
+        derived_dataset_case(ctx, chi, rng, ds, chains, lls[r_first], pred, cols, uniq[r_first], pmap, inp, True)
+
+
+# ----------------------------------------------------------------------------------------
+# datasets DERIVED from the one a controller returns (chain / draw coordinates that are not 0..n-1)
+# ----------------------------------------------------------------------------------------
+def derive_steps(rng, n_chains, n_draws):
+    """what users do to a posterior dataset before they feed it back: discard the warm-up
+    (`.sel(draw=slice(k, None))`), thin the draws, keep a subset of the chains, number the draws / chains on from
+    an earlier run.  Returns the steps `[on_chain, op, args..]` (the wire form of the model's `DStep`) and the
+    (labels, raw positions) of both axes afterwards; labels stay increasing, no axis becomes empty, and at least
+    one axis no longer carries the default range."""
+    ax = {True: [(i, i) for i in range(n_chains)], False: [(i, i) for i in range(n_draws)]}
+    steps = []
+
+    def apply(dim, op, *a):
+        cur = ax[dim]
+        if op == 'sel':
+            pos = dict(cur)
+            cur = [(lab, pos[lab]) for lab in a[0]]
+        elif op == 'from':
+            cur = [e for e in cur if e[0] >= a[0]]
+        elif op == 'thin':
+            cur = cur[a[0]::a[1]]
+        else:
+            cur = [(lab + a[0], src) for lab, src in cur]
+        ax[dim] = cur
+        steps.append([dim, op] + [list(v) if isinstance(v, (list, tuple)) else int(v) for v in a])
+
+    def one(dim):
+        cur = ax[dim]
+        r = rng.random()
+        if len(cur) >= 2 and r < 0.45:
+            lo, hi = cur[0][0] + 1, cur[-1][0]          # any integer in between, a label or not
+            apply(dim, 'from', int(rng.integers(lo, hi + 1)))
+        elif len(cur) >= 2 and r < 0.65:
+            apply(dim, 'thin', int(rng.integers(0, 2)), int(rng.integers(2, 4)))
+        elif len(cur) >= 2 and r < 0.85:
+            m = int(rng.integers(1, len(cur)))
+            keep = sorted(int(j) for j in rng.choice(len(cur), size=m, replace=False))
+            apply(dim, 'sel', [cur[j][0] for j in keep])
+        else:
+            apply(dim, 'shift', [1, 2, 10, 100, 1000][int(rng.integers(5))])
+    for dim in (False, True):
+        for _ in range(int(rng.integers(0, 3)) if dim is False else int(rng.integers(0, 2))):
+            one(dim)
+    if rng.random() < 0.5:
+        steps_c = [st for st in steps if st[0]]
+        steps[:] = steps_c + [st for st in steps if not st[0]]      # the order between the dimensions is free
+    default = all([lab for lab, _ in ax[d]] == list(range(len(ax[d]))) for d in (True, False))
+    if default:
+        dim = bool(n_chains >= 2 and rng.random() < 0.4)
+        if len(ax[dim]) >= 2 and rng.random() < 0.75:
+            apply(dim, 'from', int(rng.integers(1, ax[dim][-1][0] + 1)))
+        else:
+            apply(dim, 'shift', [1, 7, 500][int(rng.integers(3))])
+    return steps, ax[True], ax[False]
+
+
+def apply_steps(ds, steps):
+    """the steps with xarray's public selection methods"""
+    for on_chain, op, *a in steps:
+        dim = 'chain' if on_chain else 'draw'
+        if op == 'sel':
+            ds = ds.sel({dim: list(a[0])})
+        elif op == 'from':
+            ds = ds.sel({dim: slice(a[0], None)})
+        elif op == 'thin':
+            ds = ds.isel({dim: slice(a[0], None, a[1])})
+        else:
+            ds = ds.assign_coords({dim: ds[dim].values + a[0]})
+    return ds
+
+
+def labelled_entries(da, clab, dlab, want, tol=1e-12):
+    """`da.sel(chain=c, draw=d)` for every label pair of the dataset, against want[i][j]; the first problem"""
+    for i, c in enumerate(clab):
+        for j, d in enumerate(dlab):
+            try:
+                v = np.asarray(da.sel(chain=c, draw=d).values, float)
+            except Exception as e:  # noqa
+                return {'no entry under the labels': [int(c), int(d)], 'raised': type(e).__name__}
+            if v.shape != np.shape(want[i][j]) or not core.close(v, want[i][j], tol):
+                return {'labels': [int(c), int(d)], 'entry': v, 'of the parameters stored there': want[i][j]}
+    return None
+
+
+def derived_dataset_case(ctx, chi, rng, ds, chains, ll, pred, cols, individual, pmap, inp, has_ind):
+    """the dataset with warm-up removed / thinned / a subset of chains / renumbered, fed to the two consumers:
+    the entry of the pointwise log-likelihoods found under the labels (chain=c, draw=d) is the one of the
+    parameters the dataset holds under these labels (DataArray and InferenceData form), and the posterior
+    predictive model draws from exactly the rows the dataset holds"""
+    # (own generator: the rest of the case sees the same stream whether or not this part runs; the thorough tier,
+    # which has some 20 times as many cases, runs it for two thirds of them)
+    rng = np.random.default_rng([int(rng.integers(2 ** 32)), 18])
+    if ctx.tier == 'thorough' and rng.random() < 1 / 3:
+        return
+    n_chains, n_draws, _ = chains.shape
+    steps, cax, dax = derive_steps(rng, n_chains, n_draws)
+    clab, cpos = [e[0] for e in cax], [e[1] for e in cax]
+    dlab, dpos = [e[0] for e in dax], [e[1] for e in dax]
+    inp = dict(inp, derived={'steps': steps, 'chain_labels': clab, 'draw_labels': dlab})
+    sub = apply_steps(ds, steps)
+    mo = ctx.model('C18.derived', steps, n_chains, n_draws)
+    # the model of the selection steps against xarray itself (an assumption of the model, checked on every case)
+    ctx.agree('C18.derived_dataset/xarray_selection', ['ok', list(sub.chain.values), list(sub.draw.values)],
+              [mo[0], mo[1], mo[3]] if mo[0] == 'ok' else mo, inp)
+    if not ctx.agree('C18.derived_dataset/generator_bookkeeping', ['ok', clab, cpos, dlab, dpos], mo[:5], inp):
+        return
+    ctx.branches.add('derived:' + '+'.join(sorted({('chain-' if st[0] else 'draw-') + st[1] for st in steps})))
+    kw = {} if not has_ind else {'individual': individual}
+    with np.errstate(all='ignore'):
+        at = {(ci, di): np.asarray(ll.compute_pointwise_ll(chains[ci, di, cols]), float) for di in dpos for ci in cpos}
+    want = [[at[ci, di] for di in dpos] for ci in cpos]
+    n_obs = len(want[0][0])
+    # --- pointwise log-likelihoods, DataArray form
+    try:
+        pw = chi.compute_pointwise_loglikelihood(ll, sub, param_map=pmap or None, **kw)
+        shape_ok = dict(pw.sizes) == {'chain': len(clab), 'draw': len(dlab), 'observation': n_obs}
+        problem = labelled_entries(pw, clab, dlab, want) if shape_ok else {'dims': list(pw.dims),
+                                                                           'shape': list(pw.shape)}
+        got_labels = ['ok', list(pw.chain.values), list(pw.draw.values)] if shape_ok else 'shape'
+    except Exception as e:  # noqa
+        problem = {'raised': repr(e)[:200]}
+        got_labels = core.errkind(e)
+    ctx.spec('C18.readback/pointwise_loglikelihood_derived_dataset', problem is None, inp, problem)
+    # model: the result carries the dataset's coordinates, slice by slice
+    ctx.agree('C18.derived_dataset/pointwise_coordinates', got_labels, ['ok', mo[5], mo[7]], inp)
+    if problem is None:
+        ctx.agree('C18.derived_dataset/pointwise_sources', pw.transpose('chain', 'draw', 'observation').values,
+                  [[at.get((ci, di)) for di in mo[8]] for ci in mo[6]], inp, rtol=1e-12)
+    # --- InferenceData form: the log-likelihoods sit next to the posterior group under the same labels
+    if rng.random() < 0.5:
+        var = [str(v) for v in sub.data_vars][int(rng.integers(len(sub.data_vars)))]
+        try:
+            idata = chi.compute_pointwise_loglikelihood(ll, sub, param_map=pmap or None,
+                                                        return_inference_data=True, **kw)
+            # the log-likelihoods: the variable with an observation axis, in whichever group other than the posterior
+            found = [idata[g][v] for g in idata.groups() if g != 'posterior' for v in idata[g].data_vars
+                     if 'observation' in idata[g][v].dims]
+            problem = labelled_entries(found[0].transpose('chain', 'draw', 'observation'), clab, dlab, want) \
+                if len(found) == 1 else {'variables with an observation axis': len(found)}
+            if problem is None:
+                # the posterior group still holds the dataset's entries under the dataset's labels
+                a, b = idata.posterior[var], sub[var]
+                if has_ind and 'individual' in b.dims:
+                    b = b.sel(individual=individual)
+                    if 'individual' in a.dims:
+                        a = a.sel(individual=individual)
+                wantv = [[np.asarray(b.sel(chain=c, draw=d).values, float) for d in dlab] for c in clab]
+                problem = labelled_entries(a, clab, dlab, wantv, 0.0)
+                if problem is not None:
+                    problem['posterior group variable'] = var
+        except Exception as e:  # noqa
+            problem = {'raised': repr(e)[:200]}
+        ctx.spec('C18.readback/inference_data_derived_dataset', problem is None, inp, problem)
+    # --- posterior predictive model on the derived dataset: exact replay on the rows the dataset holds
+    if pred is None:
+        return
+    seed = pick_seed(rng)
+    n_samples = int(rng.integers(1, 3))
+    times = [0.5, 2.0]
+    try:
+        df = chi.PosteriorPredictiveModel(pred, sub, param_map=pmap or None).sample(
+            times, n_samples=n_samples, seed=seed, **kw)
+        got = list(np.asarray(df['Value'], float))
+    except Exception as e:  # noqa
+        got = core.errkind(e)
+    rows = [[ci, di] for ci in cpos for di in dpos]          # chain-major, as the dataset holds them
+    ctx.agree('C18.derived_dataset/predictive_rows', rows, mo[9], inp)
+    posterior = np.array([chains[ci, di, cols] for ci, di in rows])
+    g = np.random.default_rng(seed)
+    wantp = []
+    for _ in range(n_samples):
+        par = g.choice(posterior)
+        wantp += list(pred.sample(par, times, n_samples, g, return_df=False)[0, :, 0])
+    ctx.spec('C18.readback/posterior_predictive_derived_dataset', not isinstance(got, str)
+             and core.close(got, wantp, 1e-12), inp, {'chi': got, 'expected': wantp, 'seed': seed,
+                                                      'rows (raw chain, raw draw)': rows})
 
 
 def individual_dataset_case(ctx, chi, rng, k):
@@ -605,6 +796,7 @@ def individual_dataset_case(ctx, chi, rng, k):
              'C18.readback/pointwise_loglikelihood_after_call_with_other_map', not isinstance(gotp, str) and
              gotp.shape == wantp.shape and core.close(gotp, wantp, 1e-12), inp,
              {'chi': gotp if isinstance(gotp, str) else 'array'})
+    derived_dataset_case(ctx, chi, rng, ds, chains, ll, pred, list(range(chains.shape[2])), None, xmap, inp, False)
 
 
 # ----------------------------------------------------------------------------------------
@@ -836,6 +1028,11 @@ def controller_initial_points(ctx, chi, rng, k):
         ok = False
         detail = {'raised': repr(e)[:200]}
     ctx.spec('C18.run_dataset_rows_are_evaluated_points', ok, inp, detail)
+    if ok and not hier:
+        # the dataset of the real run, trimmed the usual ways, fed to the pointwise evaluation and a predictive model
+        raw = np.stack([np.asarray(ds[nm].values, float) for nm in names], axis=-1)
+        pred = chi.PredictiveModel(toy.ToyModel(1, n_mech, tseed), [chi.GaussianErrorModel()])
+        derived_dataset_case(ctx, chi, rng, ds, raw, ll, pred, list(range(len(names))), None, {}, inp, False)
 
 
 # ----------------------------------------------------------------------------------------
